@@ -165,7 +165,7 @@ class _ScriptedRandom:
         return getattr(self._real, n)
 
 
-def run_impl(cfg, frames, whole, aborted_before=None):
+def run_impl(cfg, frames, whole, aborted_before=None, size=None):
     """fresh simulator with the given personality -> (reply frames, error, store image).
     aborted_before: bytes of an earlier session from the SAME peer address that ended inside a frame"""
     from cpppo.server.enip import logix, device, ucmm, main
@@ -198,7 +198,7 @@ def run_impl(cfg, frames, whole, aborted_before=None):
             ucmm.random = _ScriptedRandom(saved_random, [0, 0])
         err = None
         try:
-            main.enip_srv_tcp(conn, ('10.6.6.6', 40600), 'c06', logix.process, server=srv, UCMM_class=U)
+            main.enip_srv_tcp(conn, ('10.6.6.6', 40600), 'c06', logix.process, server=srv, UCMM_class=U, **({} if size is None else {'size': size}))
         except Exception as e:
             err = type(e).__name__
         finally:
@@ -283,6 +283,16 @@ def run(ctx):
         # the same requests one frame per recv(); every third session follows a session from the same peer that was cut inside a frame
         cut = frames[0][:rng.choice([3, 10, 24, len(frames[0]) - 1])] if i % 3 == 0 else None
         r2, err2, image2 = run_impl(cfg, frames, whole=False, aborted_before=cut)
+        if i % 5 == 0:
+            # a simulator started with --size N serves every request whose encapsulated payload is at most N bytes: with N = the largest
+            # payload of this session nothing may change
+            nmax = max(len(f) - 24 for f in frames)
+            r3, err3, image3 = run_impl(cfg, frames, whole=True, size=nmax)
+            strip3 = lambda rs: [r[:4] + b'\0\0\0\0' + r[8:] if r[:2] == b'\x65\x00' else r for r in rs]
+            if strip3(r3) != strip3(replies) or image3 != image:
+                nbad += 1
+                ctx.violation(dict(size_option=nmax, frames=[f.hex() for f in frames], replies=[r.hex() for r in replies], replies_with_size_limit=[r.hex() for r in r3]),
+                              'with --size N a request of at most N bytes is answered differently (a request of exactly N bytes is refused)')
         cases.append(enc_model(cfg, store_enc, session, names)); meta.append((cfg, session, frames, replies, err, image, r2, err2, image2))
     outs = core.run_model('session', cases)
     nrep = 0
